@@ -445,3 +445,5 @@ def run(ctx, rep):
     C16.increment_last_rules(F, rep, "C02.num")
     from rules import C08
     C08.protocol(ctx, rep, "C02.front")
+    from rules import C09 as _C09
+    compose(ctx, rep, "C09", "C02.layout", r"^C09\.(carve|order|start)$")
